@@ -56,6 +56,7 @@ namespace igris
             using Type = typename Container::value_type;
             auto size = archive.template deserialize<uint16_t>();
 
+            listtag.container.clear();
             for (int i = 0; i < size; ++i)
             {
                 Type elem = archive.template deserialize<Type>();
